@@ -11,6 +11,7 @@ CONSTANTS
   TypeOf <- MCTypeOf2
   RootTypes <- MCRoot
   Edits <- MCEdits
+  EncToks <- MCEncNone
   HelperToks <- MCHelpersH
   ImportToks <- MCImportsA
   CmtToks <- MCCmt
